@@ -11,7 +11,9 @@ Three parts:
  (1) trimesh.voxel.runlength: every free function on every 0/1 sequence of length <= 12
      (thorough 16), value sequences over {0, 1, 3}, and sequences with runs of
      254/255/256/510/511/600/65535/65536, for count dtypes uint8 / uint16 / int64, on
-     canonical, split and fragmented (zero-count runs) encodings.
+     canonical, split and fragmented (zero-count runs) encodings; the other integer count widths
+     (int8, int32, uint32, uint64) on the sequences <= 6 and on runs around 127 / 128 / 255 / 300,
+     their name is part of the input class (`in=short,uint64`).
      key:  fn=<function[:variant]> in=<input class> sym=<wrong|raised:Exc>
  (2) Encoding classes: table  class chain x read x {ok, wrong, raised:Exc}.
      key:  enc=<class chain> read=<read> [in=empty] sym=<wrong|raised:Exc>
@@ -21,10 +23,16 @@ Three parts:
      coincide for involutions; RLE[uint8] carries a count dtype narrower than 64 bit; a
      '.flip' / '.transpose' / ... suffix marks a public method that returned an eager or merged
      object instead of a new lazy layer.  `in=empty` is part of the key only for the reads
-     that depend on the filled set (EMPTY_READS).
+     that depend on the filled set (EMPTY_READS).  Read histories on the same objects: `read=<read>@again`
+     (read once more after the whole battery) and `read=base[<chain below>].<read>@after_view` (an object
+     the view was derived from, read after the view); these keys are used only when a freshly built,
+     never-read object answers the same read correctly - otherwise the plain cell is what is reported.
+     `.reshape[-1]` in the chain marks a reshape with an inferred axis.
  (3) VoxelGrid: points_to_indices o indices_to_points (both ways), is_filled, filled_count,
      volume, points, bounds, binvox export + load in every axis order.
-     key:  vg=<check> tf=<transform class | plain / negscale / rotated> [enc=<base>] sym=<...>
+     key:  vg=<check> tf=<transform class | plain / negscale / rotated> [enc=<base>] [in=noncubic] sym=<...>
+     (binvox round trips of non-cubic grids use a per-axis pitch that gives the three axes the same
+     extent, the one restriction the exporter documents)
 """
 
 from __future__ import annotations
@@ -40,17 +48,22 @@ LEVEL = "exploration"
 RULE = (
     "runlength: every 0/1 sequence of length <= 12 (thorough 16, sharded), every sequence over {0,1,3} of "
     "length <= 6 (thorough 8), run patterns with 254/255/256/510/511/600/65535/65536-long runs, each as "
-    "canonical / dtype-split / fragmented RLE and BRLE with count dtypes uint8, uint16, int64; one case = "
+    "canonical / dtype-split / fragmented RLE and BRLE with count dtypes uint8, uint16, int64 (and, on sequences "
+    "<= 6 and on run patterns around 127/128/255/300, int8, int32, uint32, uint64); one case = "
     "(function, sequence, encoding variant, dtype, index set); trivial = length-0 sequence. "
     "encodings: enumerated + random 1-D/2-D/3-D bool and small-int arrays (size-1 axes, all-empty, all-full, "
-    "single voxel, runs > 255) x base encoding (Dense, Sparse, RLE, BRLE with uint8 / int64 counts) x view "
+    "single voxel, runs > 255, uint8 / int16 valued with value * run > 255) x base encoding (Dense, Sparse, RLE, BRLE with uint8 / int64 counts) x view "
     "recipes through the public methods (flip over every axis subset, transpose over every permutation incl. "
-    "3-cycles, reshape, flat, two- and three-view compositions incl. the binvox exporter's route) x 17 reads "
+    "3-cycles, reshape incl. an inferred -1 axis, flat, two- and three-view compositions incl. the binvox "
+    "exporter's route and every transpose of a Dense encoding followed by flat / reshape / transpose / flip, "
+    "views over uint8-count RLE / BRLE) x 17 reads x read history (first read of a fresh object; every read "
+    "once more after the whole battery; every object below the view read after the view) "
     "(index sets single / sorted / unsorted / repeated, k == ndim, list and array); one case = (class chain, "
     "read, array, recipe, index set); distinct = distinct digest of those; trivial = size-0. "
     "voxelgrid: arrays x base encoding x transform class (identity, translation, uniform / per-axis scale, "
     "rotation, similarity, axis mirror, two-axis flip, point mirror, mirror+rotation, shear, affine of either "
-    "orientation) x check; trivial = empty grid or identity transform."
+    "orientation) x check; binvox round trips on cubic grids and on non-cubic grids with a per-axis pitch of "
+    "uniform extent; trivial = empty grid or identity transform."
 )
 ANCHORS = [
     "trimesh/voxel/runlength.py:dense_to_rle",
@@ -123,7 +136,10 @@ ASSUMPTIONS = [
     "count <= iinfo(dtype).max; no particular split/merge normal form and no output dtype is demanded "
     "(except merge_* on canonical input, documented as the exact inverse of split_long_*)",
     "filled indices are compared as a set of rows (order is not part of the statement); filled values must "
-    "be aligned with the indices the same encoding reports",
+    "be aligned with the indices the same encoding reported (the answer of that read is kept by value: the "
+    "oracle never reads the object itself, a second read could undo what the first one disturbed)",
+    "reads do not change what an encoding represents: the same reference array judges the first read, the "
+    "re-read and the reads of the objects below a view",
     "zero-size inputs (length-0 sequence) may be refused: an exception there is counted as skipped, a wrong "
     "value is still a violation",
     "get_value(index) does not document the index type: it is tried with a tuple, then an int64 array, then "
@@ -793,7 +809,7 @@ LIGHT_READS = ("dense", "sum", "is_empty", "sparse_indices", "sparse_values", "g
 
 
 def read_battery(run, enc, X, recipe, rng=None, only=None, marks="", label=None, rfmt="%s", light=False,
-                 fresh=None):
+                 fresh=None, source=None):
     """
     Every read of `enc` against the reference array X.  Returns the chain label.
     `rfmt` renames the reads of a later pass of a read history ('%s@again': the same object read a
@@ -844,8 +860,9 @@ def read_battery(run, enc, X, recipe, rng=None, only=None, marks="", label=None,
         run.case("enc:" + base_read + (rfmt[rfmt.index("%s") + 2:] if read != base_read else ""), lab, read,
                  *subparts, *digest, nontrivial=X.size > 0)
         if sym != "ok":
-            case = {"part": "enc", "array": _pack(X), "recipe": recipe, "read": read, "chain": lab,
-                    "sub": sub, "observed": detail}
+            # `array` is what the recipe starts from (replay rebuilds the views from it), not the view's reference
+            case = {"part": "enc", "array": _pack(X if source is None else source), "recipe": recipe, "read": read,
+                    "chain": lab, "sub": sub, "observed": detail}
             case.update(extra)
             run.violation(
                 "enc=%s read=%s%s sym=%s" % (lab, read, " in=empty" if nzcount == 0 and base_read in EMPTY_READS else "", sym),
@@ -1042,10 +1059,10 @@ def run_recipe(run, X, recipe, rng=None, only=None, history=1):
             {"part": "enc", "array": _pack(X), "recipe": recipe, "read": "build", "observed": repr(e)[:240]},
         )
         return None
-    label = read_battery(run, enc, ref, recipe, rng=rng, only=only, marks=marks)
+    label = read_battery(run, enc, ref, recipe, rng=rng, only=only, marks=marks, source=X)
     if history and ref.size:
         read_battery(run, enc, ref, recipe, rng=None, only=only, label=label, rfmt="%s@again", light=history < 2,
-                     fresh=lambda: (_build(recipe, X)[0], label))
+                     fresh=lambda: (_build(recipe, X)[0], label), source=X)
         done = {id(enc)}
         for k in range(len(stages) - 1, -1, -1):
             below, bref, bmarks = stages[k]
@@ -1055,7 +1072,7 @@ def run_recipe(run, X, recipe, rng=None, only=None, history=1):
             blabel = chain_of(below) + bmarks
             read_battery(run, below, bref, recipe, rng=None, only=only, label=label,
                          rfmt="base[%s].%%s@after_view" % blabel, light=True,
-                         fresh=lambda k=k, blabel=blabel: (_build(recipe, X, k)[0], blabel))
+                         fresh=lambda k=k, blabel=blabel: (_build(recipe, X, k)[0], blabel), source=X)
     return label
 
 
@@ -1599,7 +1616,7 @@ def workload(run):
     # order: the cheap, wide tables first; budget fractions are cumulative
     part_voxelgrid(run, 0.18)
     run.note("elapsed_after_voxelgrid", round(run.elapsed(), 1))
-    part_encodings(run, 0.54)
+    part_encodings(run, 0.50)
     run.note("elapsed_after_encodings", round(run.elapsed(), 1))
     part_runlength(run, 0.97)
     cells = run.states.get("cell", set())
